@@ -15,7 +15,15 @@
             eligibility_partial + softmax_finite_only_refuted (what the generated masks are; the
             deprecated SoftmaxRanker also admits +-inf: known finding)
    * "a positive run-time length overriding the configured one"     -> positive_runtime_n_overrides
-   * "every eligible item is equally likely under uniform selection" -> uniform_symmetric (counting)
+   * "every eligible item is equally likely under uniform selection" -> uniform_symmetric (counting),
+     uniform_inclusion_count (the exact count for every n: probability min(n, N)/N, with n = 1, N-1, N spelled
+     out) and generator_use_rule (GENERATED: the selector's only use of its generator is
+     rng.choice(len(items), n, replace=False), the rankers' only use is rng.uniform(0, 1, N))
+   * the samples of different calls are draws from different generator streams (user-derived seeds)
+         -> derived_streams (GENERATED facts about lenskit/random.py + the stream identities: every anonymous
+            call a new child, integer users always apart, str / bytes / UUID users apart exactly when the digest
+            separates their bytes; the digest itself -- MD5 -- is not modelled: the frequency exercise counts
+            users of look-alike id families that were handed the same list)
    * "under stochastic ranking the probability that an item is ranked first is its transformed score
      weight (softmax, linear, or raw) divided by the total weight"
          -> first_pick_probability + key_tail (law of the first of independent exponential clocks,
@@ -30,8 +38,8 @@
    is not formalised here.  Fixed-seed frequency tables (evidence: `frequency_tables`) exercise it. *)
 From Coq Require Import ZArith QArith List Bool Reals.
 From Coquelicot Require Import Coquelicot.
-From LK Require Import Lib.QLib Lib.PyInt Lib.TopN Gen.C03_len Gen.C19_len Model.C19_select
-  Proofs.C19_main Proofs.C19_uniform Proofs.C19_race.
+From LK Require Import Lib.QLib Lib.PyInt Lib.C19Rules Lib.TopN Gen.C03_len Gen.C19_len Model.C19_select Model.C19_seed
+  Proofs.C19_main Proofs.C19_uniform Proofs.C19_inclusion Proofs.C19_seed Proofs.C19_race.
 Import ListNotations.
 
 (* FULL statement (property text: "items with finite scores for score-based sampling"):
@@ -124,6 +132,38 @@ Theorem uniform_symmetric : forall (l : list nat) (n i j : nat),
 Proof. exact uniform_symmetric_full. Qed.
 Print Assumptions uniform_symmetric.
 
+(* exact inclusion count for every length n, not only symmetry: N * #{arrangements with i among the first n} = min(n, N) * N! *)
+Theorem uniform_inclusion_count : forall (l : list nat) (n i : nat),
+  NoDup l -> In i l ->
+  (count_first n i l * length l = Nat.min n (length l) * fact (length l) /\
+   count_first 1 i l * length l = fact (length l) /\
+   count_first (length l - 1) i l * length l = (length l - 1) * fact (length l) /\
+   count_first (length l) i l = fact (length l))%nat.
+Proof. exact uniform_inclusion_full. Qed.
+Print Assumptions uniform_inclusion_count.
+
+(* how the components use their generator: GENERATED facts (the translator lists every use of `rng` in each __call__) *)
+Theorem generator_use_rule :
+  random_draw = DrawChoiceNoReplace /\ softmax_draw = DrawUniform01PerEligible /\ stochastic_draw = DrawUniform01PerEligible.
+Proof. exact generator_use_rule_l. Qed.
+Print Assumptions generator_use_rule.
+
+(* user-derived seeds (lenskit/random.py, GENERATED facts) and the identity of the stream each call draws from *)
+Theorem derived_streams :
+  seed_digest = DigestMd5XorFold /\ seed_derivation = DeriveChildIfAnonymousElseBaseAndUser /\
+  seed_words = [WSkipNone; WSeedSequenceEntropy; WNumpyInt; WInt; WDigestUuidBytes; WDigestUtf8; WDigestBytes; WIntSequence] /\
+  seed_specs = [SpecUserFreshEntropy; SpecSeedUser; SpecFixedGenerator] /\
+  forall (digest : list Z -> Z) (base : list Z),
+    (forall i j, anonymous_stream base i = anonymous_stream base j <-> i = j) /\
+    (forall i k, anonymous_stream base i <> user_stream digest base k) /\
+    (forall k1 k2, user_stream digest base k1 = user_stream digest base k2 <-> key_word digest k1 = key_word digest k2) /\
+    (forall a b, user_stream digest base (UInt a) = user_stream digest base (UInt b) <-> a = b) /\
+    (forall family k1 k2 b1 b2, separates digest family ->
+       key_bytes k1 = Some b1 -> key_bytes k2 = Some b2 -> In b1 family -> In b2 family ->
+       (user_stream digest base k1 = user_stream digest base k2 <-> b1 = b2)).
+Proof. exact derived_streams_l. Qed.
+Print Assumptions derived_streams.
+
 Theorem linear_weights_prob : forall xs tiny, xs <> [] -> (0 < tiny)%Q ->
   length (linear_weights xs) = length xs /\
   (Qsum (linear_weights xs) == 1)%Q /\ (forall w, In w (linear_weights xs) -> (0 <= w)%Q) /\
@@ -158,8 +198,11 @@ Example c19_nonvacuous :
   stochastic_ranker items None None [(-3 # 1); (-1 # 4); (-2 # 1)]%Q
     = Some ([(12, SNum 3, 9); (14, SNum (-2), 2); (10, SNum (1 # 2), 7)]%Z, true) /\
   count_first 2 0 [0; 1; 2; 3]%nat = 12%nat /\ count_first 2 3 [0; 1; 2; 3]%nat = 12%nat /\
+  count_first 1 3 [0; 1; 2; 3]%nat = 6%nat /\ count_first 3 3 [0; 1; 2; 3]%nat = 18%nat /\ count_first 4 3 [0; 1; 2; 3]%nat = 24%nat /\
+  user_stream (fun b => Z.of_nat (length b)) [7]%Z (UStr [117; 49]%Z) = user_stream (fun b => Z.of_nat (length b)) [7]%Z (UBytes [117; 50]%Z) /\
+  user_stream (fun b => fold_left Z.add b 0%Z) [7]%Z (UStr [117; 49]%Z) <> user_stream (fun b => fold_left Z.add b 0%Z) [7]%Z (UStr [117; 50]%Z) /\
   (Qsum (linear_weights [1; 3; 2]) == 1)%Q.
 Proof.
   cbv zeta. split; [repeat constructor; simpl; intuition discriminate|].
-  repeat split; vm_compute; reflexivity.
+  repeat split; vm_compute; try reflexivity. discriminate.
 Qed.
